@@ -2,6 +2,7 @@ package node
 
 import (
 	"runtime"
+	"sync"
 	"sync/atomic"
 	"time"
 
@@ -21,6 +22,21 @@ type application struct {
 	state   int32
 	stopped chan struct{}
 	reason  error
+
+	// members that terminated while start() was still starting the others. They are
+	// handled (see terminate) once the group is complete and the Start callback has
+	// returned; otherwise the group of a half-started application looks empty and
+	// the application is taken for stopped
+	starting struct {
+		sync.Mutex
+		active bool
+		exits  []applicationMemberExit
+	}
+}
+
+type applicationMemberExit struct {
+	pid    gen.PID
+	reason error
 }
 
 func (a *application) start(mode gen.ApplicationMode, options gen.ApplicationOptionsExtra) error {
@@ -57,6 +73,10 @@ func (a *application) start(mode gen.ApplicationMode, options gen.ApplicationOpt
 	a.mode = mode
 	a.stopped = make(chan struct{})
 
+	a.starting.Lock()
+	a.starting.active = true
+	a.starting.Unlock()
+
 	// start items
 	for _, item := range a.spec.Group {
 		opts := gen.ProcessOptionsExtra{
@@ -73,6 +93,7 @@ func (a *application) start(mode gen.ApplicationMode, options gen.ApplicationOpt
 
 		pid, err := a.node.spawn(item.Factory, opts)
 		if err != nil {
+			a.startingDone()
 			// Kill removes the process from the group, so it can not be
 			// called within the Range callback (the group is locked there)
 			for _, pid := range a.members() {
@@ -90,6 +111,16 @@ func (a *application) start(mode gen.ApplicationMode, options gen.ApplicationOpt
 
 	a.started = time.Now().Unix()
 
+	a.invokeStart(mode)
+	a.registerAppRoute()
+
+	// now handle the members that have terminated meanwhile
+	a.startingDone()
+
+	return nil
+}
+
+func (a *application) invokeStart(mode gen.ApplicationMode) {
 	if lib.Recover() {
 		defer func() {
 			if r := recover(); r != nil {
@@ -102,9 +133,19 @@ func (a *application) start(mode gen.ApplicationMode, options gen.ApplicationOpt
 	}
 
 	a.behavior.Start(mode)
-	a.registerAppRoute()
+}
 
-	return nil
+// startingDone ends the starting phase and handles the members that terminated during it
+func (a *application) startingDone() {
+	a.starting.Lock()
+	exits := a.starting.exits
+	a.starting.exits = nil
+	a.starting.active = false
+	a.starting.Unlock()
+
+	for _, e := range exits {
+		a.terminate(e.pid, e.reason)
+	}
 }
 
 func (a *application) stop(force bool, timeout time.Duration) error {
@@ -163,6 +204,15 @@ func (a *application) members() []gen.PID {
 }
 
 func (a *application) terminate(pid gen.PID, reason error) {
+	a.starting.Lock()
+	if a.starting.active {
+		// start() is still starting the members. it handles this one when it is done
+		a.starting.exits = append(a.starting.exits, applicationMemberExit{pid, reason})
+		a.starting.Unlock()
+		return
+	}
+	a.starting.Unlock()
+
 	if _, exist := a.group.LoadAndDelete(pid); exist == false {
 		// it was started as a child process somewhere deep in the supervision tree
 		// do nothing.
